@@ -313,9 +313,9 @@ contract('saml2_tophat.sigver:extract_rsa_key_from_x509_cert', trusted=True, pur
 # SAML bindings 3.4.4.1: the octet string that is signed -- SAMLRequest|SAMLResponse, then RelayState if present,
 # then SigAlg, each as one urlencoded k=v pair, joined by '&' (property-derived, not read off the code)
 macro('SIGNED_QUERY', ['d', 'typ'],
-      "concat(urlenc1(typ, str_of(d[typ])), "
-      "str_of(ite('RelayState' in d, vstr(concat('&', urlenc1('RelayState', str_of(d['RelayState'])))), vstr(''))), "
-      "str_of(ite('SigAlg' in d, vstr(concat('&', urlenc1('SigAlg', str_of(d['SigAlg'])))), vstr(''))))")
+      "concat(urlenc1(typ, urlpayload(d[typ])), "
+      "str_of(ite('RelayState' in d, vstr(concat('&', urlenc1('RelayState', urlpayload(d['RelayState'])))), vstr(''))), "
+      "str_of(ite('SigAlg' in d, vstr(concat('&', urlenc1('SigAlg', urlpayload(d['SigAlg'])))), vstr(''))))")
 _TYP = "ite('SAMLRequest' in saml_msg, 'SAMLRequest', 'SAMLResponse')"
 contract('saml2_tophat.sigver:verify_redirect_signature',
          types={'saml_msg': 'Dict(Str, Str)', 'crypto': "Inst('saml2_tophat.sigver:RSACrypto')", 'cert': 'Opt(Str)', 'sigkey': 'Any'},
